@@ -443,7 +443,7 @@ func init() {
 	register(&Check{ID: "C12", Level: "model_checking", Quick: 150 * time.Second, Thor: 30 * time.Minute,
 		Run: func(r *engine.Run) bool {
 			L := 8
-			r.Rule = "programs slice;..;slice;concat;repair and repair;repair on the real API: every table of 1..2 (quick) / 1..3 (thorough) features over a location menu (ranges, partial ranges, points, orders, 2-part joins, complements) x keys {gene,CDS,source} x {equal, distinct} qualifiers x every set of 1..3 cut positions of an 8-residue sequence; plus hand-free safety tables (abutting/non-abutting, same/different class, nested, overlapping) straight into Repair; size dimension: generated tables of 1..140 (thorough 300) classes and qualifier values with a common prefix of up to 5000 characters under five cut patterns; gts repair on every stream of 1..3 generated records of different table sizes (record independence, agreement with the library); distinct key = the case; non-trivial = >=1 cut inside a feature or >=2 features of one class"
+			r.Rule = "programs slice;..;slice;concat;repair and repair;repair on the real API: every table of 1 feature, every table of 2 features with the same key and a fifth of those with different keys (thorough: all, and tables of 3) over a location menu (ranges, partial ranges, points, orders, 2-part joins, complements) x keys {gene,CDS,source} x {equal, distinct} qualifiers x every set of 1..3 cut positions of an 8-residue sequence; plus hand-free safety tables (abutting/non-abutting, same/different class, nested, overlapping) straight into Repair; size dimension: generated tables of 1..140 (thorough 300) classes and qualifier values with a common prefix of up to 5000 characters under five cut patterns; gts repair on every stream of 1..3 generated records of different table sizes (record independence, agreement with the library); distinct key = the case; non-trivial = >=1 cut inside a feature or >=2 features of one class"
 			menu := []gts.Location{
 				gts.Range(1, 6), gts.Range(0, 8), gts.Range(2, 4), gts.PartialRange(1, 6, gts.Partial5), gts.PartialRange(2, 7, gts.PartialBoth),
 				gts.Point(3), gts.Ordered{gts.Range(1, 3), gts.Range(5, 7)}, gts.Ambiguous{Start: 2, End: 6},
@@ -486,7 +486,9 @@ func init() {
 			}
 			for i, a := range singles {
 				for j, b := range singles {
-					if (i+j)%3 == 0 || r.Tier == "thorough" {
+					// every pair of features with the same key (the pairs a class decision is about); a fifth of the others
+					sameKey := strings.SplitN(a, "|", 2)[0] == strings.SplitN(b, "|", 2)[0]
+					if sameKey || (i+j)%5 == 0 || r.Tier == "thorough" {
 						tables = append(tables, []string{a, b})
 					}
 				}
